@@ -401,4 +401,33 @@ theorem forImage_mutually_inverse (ds : ImageDs) (f : Option Int) (t : Bool) (P 
     rw [this]
     simp only [vecOfTriple, Gen.refToImgCorrection, V3.add, V3.mk.injEq]; refine ⟨?_, ?_, ?_⟩ <;> ring
 
+
+/-! ## PATIENT vs SLIDE -/
+
+theorem imageCoordinateSystem_slide_iff (d : CoordInput) :
+    imageCoordinateSystem d = some .slide ↔
+      d.present.contains "FrameOfReferenceUID" = true ∧
+      (d.present.contains "ImageOrientationSlide" = true ∨ d.present.contains "ImageCenterPointCoordinatesSequence" = true) := by
+  unfold imageCoordinateSystem
+  simp only [Gen.slideMarkers, Gen.patientGroupSequences, List.any_cons, List.any_nil, Bool.or_false]
+  cases h1 : d.present.contains "FrameOfReferenceUID" <;> cases h2 : d.present.contains "ImageOrientationSlide" <;>
+    cases h3 : d.present.contains "ImageCenterPointCoordinatesSequence" <;> simp <;>
+    (split <;> simp)
+
+theorem imageCoordinateSystem_patient_iff (d : CoordInput) :
+    imageCoordinateSystem d = some .patient ↔
+      d.present.contains "FrameOfReferenceUID" = true ∧
+      d.present.contains "ImageOrientationSlide" = false ∧ d.present.contains "ImageCenterPointCoordinatesSequence" = false ∧
+      (d.present.contains "ImagePositionPatient" = true ∨
+        (d.present.contains "SharedFunctionalGroupsSequence" = true ∧ d.firstItemHasPatientPosition.contains "SharedFunctionalGroupsSequence" = true) ∨
+        (d.present.contains "PerFrameFunctionalGroupsSequence" = true ∧ d.firstItemHasPatientPosition.contains "PerFrameFunctionalGroupsSequence" = true)) := by
+  unfold imageCoordinateSystem
+  simp only [Gen.slideMarkers, Gen.patientGroupSequences, List.any_cons, List.any_nil, Bool.or_false]
+  cases h1 : d.present.contains "FrameOfReferenceUID" <;> cases h2 : d.present.contains "ImageOrientationSlide" <;>
+    cases h3 : d.present.contains "ImageCenterPointCoordinatesSequence" <;> cases h4 : d.present.contains "ImagePositionPatient" <;>
+    cases h5 : d.present.contains "SharedFunctionalGroupsSequence" <;>
+    cases h6 : d.firstItemHasPatientPosition.contains "SharedFunctionalGroupsSequence" <;>
+    cases h7 : d.present.contains "PerFrameFunctionalGroupsSequence" <;>
+    cases h8 : d.firstItemHasPatientPosition.contains "PerFrameFunctionalGroupsSequence" <;> simp
+
 end HdVerif.Affine
